@@ -887,13 +887,25 @@ impl History {
                         }
                         cx.count("bursts of 45-120 records");
                     } else if exists {
-                        let t = format!("{} {}", cx.rng.pick(&words), cx.rng.pick(&words));
+                        // two words, now and then glued by a U+0000 (a control character: still two words) or by nothing
+                        let glue = if cx.rng.chance(1, 15) { *cx.rng.pick(&["\0", "\0 ", "\u{1}", ""]) } else { " " };
+                        let t = format!("{}{}{}", cx.rng.pick(&words), glue, cx.rng.pick(&words));
                         let rid = cx.rng.below(1000);
                         let ra = cx.rng.below(9);
                         hist.push(format!("add({},{},{:?},{})", id, rid, t, ra));
                         cx.ctx(format!("C20 lang={} history={:?}", lang, hist));
                         if via_bridge {
                             bridge::add_record(id, rid, &t, ra);
+                        } else if cx.rng.chance(1, 6) {
+                            // the record is prepared by the caller and added through the registry's accessor
+                            if let Some(h) = hist.last_mut() {
+                                h.push_str(" [through using_store]");
+                            }
+                            using_store(id, |s| {
+                                let rec = Record::new(rid, &t, ra, &s.lang);
+                                s.add(rec);
+                            });
+                            cx.count("records added through using_store");
                         } else {
                             add_record(id, rid, &t, ra);
                         }
